@@ -177,6 +177,9 @@ func VEqEAP(a, b *EAP) bool {
 func HEapRoundTrip() {
 	e := VGenEAP(vr.Param(0), vr.Param(1), vr.Param(2))
 	b, err := e.Marshal()
+	if err == nil {
+		vr.Output("c03.eap.encoding", b)
+	}
 	vr.Assert("c03.eap.encode.noerr", err == nil)
 	if err != nil {
 		return
